@@ -602,7 +602,7 @@ func (g *gen) frameObligations(key string, allowed map[string]bool) {
 	sort.Strings(comps)
 	top0 := g.stGet(g.entry, "alloctop")
 	for _, c := range comps {
-		if c == "alloctop" || c == epochKey {
+		if c == "alloctop" || c == epochKey || strings.HasPrefix(c, "rangevisited_") {
 			continue
 		}
 		var conj []string
